@@ -25,25 +25,47 @@ pub fn replay_json(store: &ContinuityStore, thread: &str) -> Value {
 pub fn read_answers(store: &ContinuityStore, thread: &str, light: bool) -> Vec<(String, Value)> {
     let mut out: Vec<(String, Value)> = Vec::new();
     out.push(("replay_events".into(), replay_json(store, thread)));
+    out.extend(read_answers_without_replay(store, thread, light));
+    out
+}
+
+/// `replay_events` alone (a replay rebuilds unusable caches, so WHEN it is asked matters).
+pub fn replay_answer(store: &ContinuityStore, thread: &str) -> (String, Value) {
+    ("replay_events".into(), replay_json(store, thread))
+}
+
+/// Every read-only capability except the replay: the cache-backed fast paths.
+pub fn read_answers_without_replay(store: &ContinuityStore, thread: &str, light: bool) -> Vec<(String, Value)> {
+    read_answers_without_replay_pre(store, thread, light, &|| {})
+}
+
+/// `pre` runs before every single query (the truth side of a differential removes the cache
+/// directory there, so that no answer can come from a cache an earlier query rebuilt).
+pub fn read_answers_without_replay_pre(store: &ContinuityStore, thread: &str, light: bool, pre: &dyn Fn()) -> Vec<(String, Value)> {
+    let mut out: Vec<(String, Value)> = Vec::new();
     let strides: &[u64] = if light { &[1, 2] } else { &[1, 2, 3] };
     let limits: &[u32] = if light { &[32] } else { &[1, 32] };
     for &s in strides {
         for &l in limits {
+            pre();
             out.push((
                 format!("compaction_cut_points_v1(stride={s},limit={l})"),
                 res(store.compaction_cut_points_v1(thread, CompactionCutPointsV1Request { stride_messages: Some(s), limit: Some(l) })),
             ));
         }
+        pre();
         out.push((
             format!("compaction_status_v1(stride={s})"),
             res(store.compaction_status_v1(thread, CompactionStatusV1Request { stride_messages: Some(s) })),
         ));
     }
+    pre();
     out.push(("provider_cursor_status_v1".into(), res(store.provider_cursor_status_v1(thread, ProviderCursorStatusV1Request {}))));
     for l in [1u32, 10, 50] {
         if light && l != 10 {
             continue;
         }
+        pre();
         out.push((
             format!("context_selection_status_v1(limit={l})"),
             res(store.context_selection_status_v1(thread, ContextSelectionStatusV1Request { limit: Some(l) })),
